@@ -80,8 +80,15 @@ def stub(cps):
 def real_detectors():
     from skchange.change_detectors import PELT, MovingWindow, SeededBinarySegmentation
     from skchange.change_scores import CUSUM, ChangeScore
-    from skchange.costs import L2Cost
+    from skchange.costs import GaussianVarCost, L2Cost
     return {
+        # detectors whose scorer was re-configured through nested set_params AFTER construction: the wrapped detector is the detector
+        # as it is configured now (what it predicts itself, what get_params() reports and what a clone of it predicts coincide)
+        "SeededBinarySegmentation(change_score=L2Cost(0.0)).set_params(change_score__param=None)":
+            lambda: SeededBinarySegmentation(change_score=L2Cost(param=0.0), min_segment_length=2, max_interval_length=20)
+            .set_params(change_score__param=None),
+        "MovingWindow(change_score=ChangeScore(L2Cost(0.0))).set_params(change_score__cost=GaussianVarCost())":
+            lambda: MovingWindow(change_score=ChangeScore(L2Cost(param=0.0)), bandwidth=4).set_params(change_score__cost=GaussianVarCost()),
         "PELT": lambda: PELT(min_segment_length=2),
         "PELT(cost=L2Cost())": lambda: PELT(cost=L2Cost(), min_segment_length=1, penalty_scale=1.0),
         "MovingWindow": lambda: MovingWindow(bandwidth=3),
@@ -389,7 +396,7 @@ def run(tier="quick", seed=0, repo="/repo"):
                 if ok:
                     rec.case((name, dname, sd, "prefit"), True, None)
     bound = (f"part A: stub detector, n<=7, all {127} changepoint subsets x {nvec} integer/half-integer data vectors x 4 stats x 4 bounds "
-             f"(lower<=upper); x 10 representations for one vector; part B: 6 real configurations x 5 data sets (n=30) x 4 stats x 5 bounds, "
+             f"(lower<=upper); x 10 representations for one vector; part B: 8 real configurations (two re-configured through nested set_params) x 5 data sets (n=30) x 4 stats x 5 bounds, "
              f"{len(seeds)} seed(s); ties within {MARGIN} of a bound skipped")
     return rec.result(RULE, bound, exhaustive=True, skipped_ties_or_inner_errors=skipped)
 
